@@ -283,7 +283,7 @@ func TestC18(t *testing.T) {
 		defer sv.print()
 	}
 	rapid.Check(t, func(t *rapid.T) {
-		p := &gen.Profile{Off: func(f string) bool { return f == "dir.D" || f == "dir.P" || f == "dir.Y" || disabled(f) }, Excluded: recC18.Excluded}
+		p := &gen.Profile{Off: func(f string) bool { return disabled(f) }, Excluded: recC18.Excluded}
 		pools := gen.GenPools(t, p)
 		// account classes: children and near-miss siblings of pool accounts
 		base := append([]string{}, pools.Accounts...)
